@@ -49,7 +49,12 @@ def gen(rng, tier, ctx):
         pool.append({"name": names[i], "desc": e, "tag": tag})
     paths = []
     for _ in range(rng.randint(1, 3)):
-        paths.append((rng.choice(DIRS), rng.choice(STEMS), rng.choice(EXTS)))
+        stem = rng.choice(STEMS)
+        if rng.random() < 0.5:      # any stem over the property's alphabet [A-Za-z0-9_]
+            stem = "".join(rng.choice(STEM_ALPHABET) for _ in range(rng.randint(1, 12)))
+        paths.append((rng.choice(DIRS), stem, rng.choice(EXTS)))
+    if rng.random() < 0.02 or (tier == "thorough" and rng.random() < 0.02):
+        return _gen_bigfile(rng, paths[0])
     opl = []
 
     def write(pth=None):
@@ -121,6 +126,31 @@ def gen(rng, tier, ctx):
                 opl.append({"op": "cli", "dir": pth[0], "stem": pth[1], "ext": pth[2], "save": True,
                             "entropy": rng.randint(0, 2 ** 32)})
     return {"cfg": {"klass": klass}, "pool": pool, "ops": opl}
+
+
+STEM_ALPHABET = "abcdefghijklmnopqrstuvwxyzABCDEFGHIJKLMNOPQRSTUVWXYZ0123456789_" + "pytxPY_"
+
+
+def _gen_bigfile(rng, pth):
+    """An input file of several hundred small games (> 128 KiB): edited in the middle, same length."""
+    n = rng.randint(700, 1100)
+    pool = []
+    for i in range(n):
+        p = rng.choice([0.5, 0.25, 0.75, 0.125])
+        g = {"rewards": [rng.randint(1, 8), 0, 0], "players": ["Probabilistic"] * 3,
+             "transition_list": [[(p, 1), (1 - p, 2)], [(1, 1)], [(1, 2)]], "final_states": [2]}
+        pool.append({"name": "g%04d" % i, "desc": enc(g), "tag": "mini"})
+    wr = {"op": "write_input", "dir": pth[0], "stem": pth[1], "ext": pth[2], "games": list(range(n)),
+          "style": rng.choice(["repr", "indented"]), "seed": rng.randint(0, 999)}
+    opl = [wr]
+    for _ in range(rng.randint(2, 3)):
+        kind = rng.choice(["cli", "cli", "lib"])
+        op = {"op": kind, "dir": pth[0], "stem": pth[1], "ext": pth[2], "save": True, "entropy": rng.randint(0, 2 ** 32)}
+        opl.append(op)
+        opl.append({"op": "tweak_input", "dir": pth[0], "stem": pth[1], "ext": pth[2],
+                    "pick": rng.randint(n // 3, 2 * n // 3), "coarse": rng.random() < 0.5})
+    opl.append({"op": "cli", "dir": pth[0], "stem": pth[1], "ext": pth[2], "save": True, "entropy": rng.randint(0, 2 ** 32)})
+    return {"cfg": {"klass": "bigfile"}, "pool": pool, "ops": opl}
 
 
 def readable(spec):
@@ -242,7 +272,8 @@ def execute(spec, w, ctx):
             w.fs.write_text(rel, text)
             files[rel] = {"games": denoted_now, "steps": sum(usable[g][1] for g in games), "style": op["style"],
                           "seed": op.get("seed", 0), "len": len(text)}
-            events.append([i_op, "write_input", rel, [pool[g]["name"] for g in games], op["style"], h(text)])
+            nms = [pool[g]["name"] for g in games]
+            events.append([i_op, "write_input", rel, nms if len(nms) <= 8 else "%d games" % len(nms), op["style"], h(text)])
             shapes.append("w%d%s" % (len(games), op["style"][0]))
             continue
         if kind == "tweak_input":
@@ -305,7 +336,7 @@ def execute(spec, w, ctx):
             c0 = dict(cfg, fine=True, step_cap=40 * cfg["step_cap"])     # fine steps >> coarse steps
             c0.pop("fs_faults", None)
             out0 = run_cli(op, c0, cap0)
-            v = _judge(i_op, op, out0, cap0, before, w, denoted, clean=True)
+            v = _judge(i_op, op, out0, cap0, before, w, denoted, clean=True, inputs=set(files))
             if v is not None:
                 res["violation"] = v
                 break
@@ -328,7 +359,7 @@ def execute(spec, w, ctx):
         shapes.append("%s%s%s" % (kind[0], "s" if op.get("save") else "-", "F" if faulted else ""))
         if kind == "lib":
             w.fired("same-process-session-call")
-        v = _judge(i_op, op, out, cap, before, w, denoted, clean=not faulted)
+        v = _judge(i_op, op, out, cap, before, w, denoted, clean=not faulted, inputs=set(files))
         if v is None and out["status"] == "ok" and op.get("save"):
             stem = op["stem"]
             now = h(w.fs.read_bytes("outputs/%s.txt" % stem))
@@ -358,7 +389,7 @@ def execute(spec, w, ctx):
     return res
 
 
-def _judge(i_op, op, out, cap, before, w, denoted, clean):
+def _judge(i_op, op, out, cap, before, w, denoted, clean, inputs=()):
     """Invariants after one CLI invocation."""
     stem = op["stem"]
     target = "outputs/%s.txt" % stem
@@ -377,7 +408,7 @@ def _judge(i_op, op, out, cap, before, w, denoted, clean):
                 return viol("I16.2", i_op, "`-s` run exited normally but %s does not exist (changed: %s)" % (target, changed),
                             "report-missing" if clean else "silent-failure")
             others = [c for c in changed if c != target]
-            clobbered = [c for c in others if _is_user_file(c)]
+            clobbered = [c for c in others if _is_user_file(c, inputs)]
             if clobbered:
                 return viol("I16.2", i_op, "`-s` run changed files other than %s: %s" % (target, clobbered), "stray-write")
             if others:
@@ -396,7 +427,7 @@ def _judge(i_op, op, out, cap, before, w, denoted, clean):
                 _time_probe(w, text, ret)
             return v
         else:
-            clobbered = [c for c in changed if _is_user_file(c)]
+            clobbered = [c for c in changed if _is_user_file(c, inputs)]
             if clobbered:
                 return viol("I16.2", i_op, "run without -s changed report/input files: %s" % clobbered, "stray-write")
             if changed:
@@ -410,14 +441,15 @@ def _judge(i_op, op, out, cap, before, w, denoted, clean):
     return None
 
 
-def _is_user_file(rel):
-    """Reports and input files are the user's; anything else the code may keep for itself."""
+def _is_user_file(rel, inputs=()):
+    """Reports and the input files the client wrote are the user's; anything else (a cache,
+    a log, a backup in a directory of its own) the code may keep for itself."""
     base = rel.rsplit("/", 1)[-1]
     if base.startswith("."):
         return False
     if rel.startswith("outputs/"):
-        return base.endswith(".txt")
-    return rel.startswith(("inputs/", "other/", "abs_dir/"))
+        return base.endswith(".txt") and "/" not in rel[len("outputs/"):]
+    return rel in inputs
 
 
 def _time_probe(w, text, ret):
